@@ -46,6 +46,26 @@ _PROTOCOLS = {
 }
 
 
+def is_exact_receiver(typer: Typer, expr, ctx: Ctx) -> bool:
+    """`self` / `cls` (first parameter of the enclosing method) and super() are exact w.r.t. ctx.recv."""
+    if isinstance(expr, ast.Call) and isinstance(expr.func, ast.Name) and expr.func.id == 'super':
+        return True
+    if isinstance(expr, ast.Name):
+        f = ctx.func
+        while f is not None and f.parent is not None:
+            f = f.parent
+        if f is not None and f.cls is not None and not f.is_static and f.pos_params and f.pos_params[0] == expr.id:
+            g = ctx.func
+            while g is not f:
+                if expr.id in g.params:
+                    return False  # shadowed by a nested function's own parameter
+                g = g.parent
+            return True
+    if isinstance(expr, ast.Attribute) and expr.attr == '__class__':
+        return is_exact_receiver(typer, expr.value, ctx)
+    return False
+
+
 class CallGraph:
     def __init__(self, typer: Typer):
         self.typer = typer
@@ -60,26 +80,7 @@ class CallGraph:
 
     # ------------------------------------------------------------------
     def _is_exact_receiver(self, expr, ctx: Ctx) -> bool:
-        """`self` / `cls` (first parameter of the enclosing method) and super() are exact w.r.t. ctx.recv."""
-        if isinstance(expr, ast.Call) and isinstance(expr.func, ast.Name) and expr.func.id == 'super':
-            return True
-        if isinstance(expr, ast.Name):
-            f = ctx.func
-            while f is not None and f.parent is not None:
-                if expr.id in self.typer._binding_names(f) and f is not ctx.func.parent:
-                    pass
-                f = f.parent
-            if f is not None and f.cls is not None and not f.is_static and f.pos_params and f.pos_params[0] == expr.id:
-                # not shadowed by a nested function's own binding
-                g = ctx.func
-                while g is not f:
-                    if expr.id in g.params:
-                        return False
-                    g = g.parent
-                return True
-        if isinstance(expr, ast.Attribute) and expr.attr == '__class__':
-            return self._is_exact_receiver(expr.value, ctx)
-        return False
+        return is_exact_receiver(self.typer, expr, ctx)
 
     def _expand(self, tg: Target, exact: bool, name: Optional[str]) -> List[Target]:
         if tg.kind != 'func' or exact or tg.recv is None or name is None:
